@@ -172,6 +172,10 @@ func c19exec(c *Ctx, st *c19state, op Op, seed uint64) Ev {
 }
 
 func replayC19(c *Ctx, h *Hist, ops []Op) {
+	if len(ops) > 0 && geti(ops[0], "lite") == 1 {
+		c19wide(h, geti(ops[0], "size"))
+		return
+	}
 	st := &c19state{}
 	for _, op := range ops {
 		h.Emit(c19exec(c, st, op, uint64(c.Seed)))
@@ -234,32 +238,7 @@ func runC19(c *Ctx) {
 		if !c.Thorough() && i >= 4 && i < 5 {
 			continue
 		}
-		h := c.NewHist("wide-size")
-		ctr := distinct.NewCounter[int](size)
-		lite := func(op string, v int) {
-			h.Emit(Ev{"op": op, "v": v, "size": size, "len": ctr.Len(), "count": int(min(ctr.Count(), 1<<30)), "k": -1, "buf": []int{}, "hook": 0,
-				"scripted": 0, "coinw": -1, "masks": []int{}, "bufknown": 0, "words": []string{}, "wasScripted": false, "script": []int{}, "lite": 1})
-		}
-		lite("new", 0)
-		n := 5200
-		if size < 1000 {
-			n = size - 1
-		}
-		for v := 1; v <= n; v++ {
-			ctr.Add(v)
-			if v%3 == 0 {
-				ctr.Add(v - 1) // repeats do not count
-			}
-			if v < 40 || v%97 == 0 || v > n-3 {
-				lite("add", v)
-			} else {
-				lite("addq", v) // observed too, validated the same way
-			}
-		}
-		ctr.Reset()
-		lite("reset", 0)
-		ctr.Add(7)
-		lite("add", 7)
+		c19wide(c.NewHist("wide-size"), size)
 	}
 	// many eviction passes on one counter: k must keep growing (scripted: keep, evict everything)
 	if c19hooks {
@@ -308,4 +287,34 @@ func runC19(c *Ctx) {
 	}
 	c.Extra["stats"] = stats
 	c.Extra["hooks"] = c19hooks
+}
+
+// c19wide: a counter of the given (large) size fed fewer distinct values than
+// its size, with repeats: the exact regime.  Public observations only.
+func c19wide(h *Hist, size int) {
+	ctr := distinct.NewCounter[int](size)
+	lite := func(op string, v int) {
+		h.Emit(Ev{"op": op, "v": v, "size": size, "len": ctr.Len(), "count": int(min(ctr.Count(), 1<<30)), "k": -1, "buf": []int{}, "hook": 0,
+			"scripted": 0, "coinw": -1, "masks": []int{}, "bufknown": 0, "words": []string{}, "wasScripted": false, "script": []int{}, "lite": 1})
+	}
+	lite("new", 0)
+	n := 5200
+	if size < 1000 {
+		n = size - 1
+	}
+	for v := 1; v <= n; v++ {
+		ctr.Add(v)
+		if v%3 == 0 {
+			ctr.Add(v - 1) // repeats do not count
+		}
+		if v < 40 || v%97 == 0 || v > n-3 {
+			lite("add", v)
+		} else {
+			lite("addq", v) // observed too, validated the same way
+		}
+	}
+	ctr.Reset()
+	lite("reset", 0)
+	ctr.Add(7)
+	lite("add", 7)
 }
